@@ -23,6 +23,8 @@ type DocParams struct {
 	Default     bool `json:"default,omitempty"`      // a default JSON entry
 	ServerBase  bool `json:"server_base,omitempty"`  // servers: [{url: /api}]
 	BodyDefault bool `json:"body_default,omitempty"` // request body property with a default
+	ServerHost  bool `json:"server_host,omitempty"`  // servers: [{url: http://sim.test/api}] (gorilla router only)
+	ObjParam    bool `json:"obj_param,omitempty"`    // POST takes an object-valued query parameter (form, not exploded)
 }
 
 func (p DocParams) Key() string {
@@ -32,11 +34,11 @@ func (p DocParams) Key() string {
 		}
 		return '0'
 	}
-	return string([]byte{b(p.Secured), b(p.ReqHeader), b(p.RespHeader), b(p.Class4xx), b(p.Default), b(p.ServerBase), b(p.BodyDefault)})
+	return string([]byte{b(p.Secured), b(p.ReqHeader), b(p.RespHeader), b(p.Class4xx), b(p.Default), b(p.ServerBase), b(p.BodyDefault), b(p.ServerHost), b(p.ObjParam)})
 }
 
 func (p DocParams) Base() string {
-	if p.ServerBase {
+	if p.ServerBase || p.ServerHost {
 		return "/api"
 	}
 	return ""
@@ -47,7 +49,9 @@ func (p DocParams) YAML() string {
 	var sb strings.Builder
 	w := func(f string, a ...any) { fmt.Fprintf(&sb, f, a...) }
 	w("openapi: 3.0.3\ninfo: {title: sim-mw, version: '1'}\n")
-	if p.ServerBase {
+	if p.ServerHost {
+		w("servers:\n  - url: http://sim.test/api\n")
+	} else if p.ServerBase {
 		w("servers:\n  - url: /api\n")
 	}
 	w("paths:\n")
@@ -58,6 +62,9 @@ func (p DocParams) YAML() string {
 	w("      parameters:\n        - {name: q, in: query, schema: {type: string, minLength: 2}}\n")
 	if p.ReqHeader {
 		w("        - {name: X-Req, in: header, required: true, schema: {type: string, enum: [a, b]}}\n")
+	}
+	if p.ObjParam {
+		w("        - name: color\n          in: query\n          explode: false\n          schema: {type: object, properties: {R: {type: integer}, G: {type: integer}}}\n")
 	}
 	if p.Secured {
 		w("      security:\n        - key: []\n")
